@@ -208,6 +208,17 @@ class C08(Prop):
                 acc.count(f"replies_{kind}")
                 if q % 5 != (i + 2) % 5:
                     keep.add(resp, f"{kind} response object returned for reply #{q}")
+                if kind == "state1" and q % 4 == i % 4:
+                    # the caller acts on what it read: a command that asks for the opposite state, acknowledged by the device
+                    from aioswitcher.api import Command as _Command
+
+                    queue.append(replies.ack())
+                    try:
+                        await c1.api.control_device(_Command.OFF if d["state"] == "ON" else _Command.ON)
+                    except Exception as exc:
+                        acc.count(f"control_after_query_raised_{type(exc).__name__}")
+                    acc.count("commands_sent_between_state_queries")
+                    keep.verify(acc, "returned-response-changed-later", "the time a later command on the same object had been acknowledged")
                 if q % 5 == (i + 2) % 5:
                     # the caller writes into the object it got (an optimistic update of its own view); the device then sends the
                     # very same reply again: the new object says what the reply says
